@@ -37,6 +37,8 @@ CLAIMED["C12"] = dict(
         "per configuration, sampled over configurations."
     ),
     note=(
+        "Configurations also vary: an observable computed by its own discipline (IDF), mixed-case output names, maximisation, complex-step "
+        "differentiation (DisciplinaryOpt), counter reset or not at restart. "
         "Process death only: no torn writes or power loss (death during an export is outside the statement). MDF runs use a sequential MDA "
         "(Gauss-Seidel or Jacobi with one worker) converged to round-off, and histories of MDF runs are compared up to 1e-7 (warm versus cold MDA start). "
         "Trusted: h5py/HDF5, SciPy/NLopt determinism."
@@ -55,6 +57,8 @@ CLAIMED["C03"] = dict(
         "order. Exploration: evidence lists fired faults, stop causes reached and distinct configurations."
     ),
     note=(
+        "Fault plans: NaN from a function or from a user Jacobian, ValueError in a DOE sample, clock jump, one crash of the simulation (the NEXT execution is "
+        "then checked); objectives return a float, a 0-d or a size-1 array; DOEs also run with normalize_design_space=True. "
         "Composite algorithms (MultiStart, augmented Lagrangian) are only held to 'returns a result' and run with user derivatives; MNBI, OT_SOBOL_INDICES, "
         "MorrisDOE and OATDOE are not in the workload. Promptness of the time limit is not asserted. Runs in which a third-party optimiser loops forever at "
         "already recorded points are cut by a CPU-time guard and counted as inconclusive (reach probe endless_loop_at_recorded_points). NLOPT_BFGS is not "
@@ -131,6 +135,8 @@ CLAIMED["C01"] = dict(
         "request does not call the user function again; a failed request leaves no record."
     ),
     note=(
+        "A fifth of the problems live on a ParameterSpace; derivatives are user-given (dense, CSR, CSC or COO), finite differences or complex step; a third of "
+        "the problems register the new-iteration listener that evaluates observables; requests are also made at the current value of the design space. "
         "The simulator contributes the history x fault dimension; the 'for all design spaces, all functions' dimension is sampled per run, not enumerated. "
         "Finite-difference Jacobians compared to 2e-4 and not on integer columns; fractional values of integer variables only with rounding on."
     ),
